@@ -11,7 +11,8 @@ model of their own step / reset / getters.  NOT a property of its own: its cases
 
 Classes: TeamBattleSim, PredatorPreyResourcesSim, MazeNavigationSim, MultiMazeNavigationSim,
 TrafficCorridorSimulation here; MultiCorridor (p_corridor.py), MultiAgentGridSim (p_multigrid.py) and
-ReachTheTargetSim (p_reach.py) ride in the same streams (dispatch on desc["which"]).
+ReachTheTargetSim (p_reach.py) ride in the same streams (dispatch on desc["which"]); BroadcastSim of comms_blocking.py
+(p_broadcast.py) rides in the direct-call and twin streams.
 
 desc = {"stream", "which", "p": build parameters (json), "order": rotation of the observer / done component sets,
         "ops": [["reset", [component names in reset order], tape] | ["step", [[agent, [dr, dc], attack, form]...], tape] |
@@ -40,6 +41,7 @@ import p_corridor
 import p_multigrid
 import p_reach
 import p_pacman
+import p_broadcast
 from p_place import guarded, opts_wire
 from p_attack import fenc
 
@@ -631,6 +633,8 @@ def case_from_desc(d):
         return p_reach.case_from_desc(d)
     if d["which"] == "pacman":
         return p_pacman.case_from_desc(d)
+    if d["which"] == "broadcast":
+        return p_broadcast.case_from_desc(d)
     sess = ExSession(d["which"], d["p"], d.get("order", 0), scribble=bool(d.get("scribble")))
     other = None
     if d.get("twin"):
@@ -675,6 +679,7 @@ def gen_cases(rng, stream, count, quick=True):
     yield from p_multigrid.gen_cases(rng, stream, max(12, count // 8), quick)
     yield from p_reach.gen_cases(rng, stream, max(20, count // 4), quick)
     yield from p_pacman.gen_cases(rng, stream, max(16, count // 8), quick)
+    yield from p_broadcast.gen_cases(rng, stream, max(20, count // 4), quick)
 
 
 def interpret(reply, case):
@@ -684,6 +689,8 @@ def interpret(reply, case):
         return p_multigrid.interpret(reply, case)
     if case.desc.get("which") == "pacman":
         return p_pacman.interpret(reply, case)
+    if case.desc.get("which") == "broadcast":
+        return p_broadcast.interpret(reply, case)
     return _interpret(reply, case)
 
 
@@ -720,6 +727,9 @@ def shrink_candidates(d):
         return
     if d.get("which") == "multigrid":
         yield from p_multigrid.shrink_candidates(d)
+        return
+    if d.get("which") == "broadcast":
+        yield from p_broadcast.shrink_candidates(d)
         return
     yield from _shrink_candidates(d)
 
@@ -1037,6 +1047,8 @@ def twin_case(d):
         return p_reach.twin_case(d)
     if d["which"] == "pacman":
         return p_pacman.twin_case(d)
+    if d["which"] == "broadcast":
+        return p_broadcast.twin_case(d)
     return _twin_case(d)
 
 
@@ -1085,6 +1097,7 @@ def gen_twin_cases(rng, count):
     yield from p_multigrid.gen_twin_cases(rng, max(8, count // 8))
     yield from p_reach.gen_twin_cases(rng, max(10, count // 4))
     yield from p_pacman.gen_twin_cases(rng, max(8, count // 5))
+    yield from p_broadcast.gen_twin_cases(rng, max(10, count // 4))
 
 
 def twin_interpret(reply, case):
@@ -1131,7 +1144,8 @@ RULE = (" Stream `example-modelled`: real TeamBattleSim / PredatorPreyResourcesS
         "in its declared space, getters change nothing, rewards read-and-reset, a step with in-space actions does "
         "not raise). In-domain since the repairs c4ff362 / afc90bd / c275832 / fce2c1d: agents that strike two or "
         "three agents at once, killed entities without a reward entry, MultiMazeNavigationSim's ledger, callers that "
-        "overwrite the returned observations in place (15% of the cases)." + p_corridor.RULE + p_multigrid.RULE + p_reach.RULE + p_pacman.RULE)
+        "overwrite the returned observations in place (15% of the cases)." + p_corridor.RULE + p_multigrid.RULE + p_reach.RULE + p_pacman.RULE
+        + p_broadcast.RULE)
 ASSUMPTIONS = [
     "example-modelled: rewards are compared in units of 1/100 (the real float x is read as round(100 x), which must be "
     "within 1e-6; floating-point rounding of the reward sums is not modelled)",
@@ -1139,9 +1153,14 @@ ASSUMPTIONS = [
     "example-modelled: ReachTheTargetSim is modelled (Model/Reach.lean); proved: WInvWeak of every reachable world, "
     "observations in the declared space; `stepMustNotRaise => step returns` is proved for steps that start in a WInv "
     "world and judged at run time otherwise; its two KeyError branches for in-space actions (findings R1, R2) were "
-    "repaired in the repo and the model follows; comms_blocking.py and multi_agent_sim.py are not modelled",
+    "repaired in the repo and the model follows; multi_agent_sim.py is not modelled",
     "example-modelled: PacmanSim / PacmanSimSimple are modelled (Model/Pacman.lean) with the exact state a raising step leaves; "
     "proved: Lawful/WF (C01, C07), reset establishes WInv from anything and forgets (C03, C08), static part and legal vitals in "
     "every reachable state; the cell structure (WInvFloat), `stepPre => step returns and leaves WInv` and observation membership "
     "are judged at run time (PM.specPM); reward schemes are compared in units of 1/100 (values that are multiples of 0.01)",
+    "example-modelled: BroadcastSim (comms_blocking.py) is modelled with exact rationals; the real float64 messages are "
+    "tied per call (the model is run from the implementation's previous dump, a message is accepted within 2^-40 of the "
+    "exact number; float32 observation entries are compared with numpy's float32 rounding of the stored numbers in the "
+    "harness); get_all_done is decided exactly on the dumped messages (a float average within rounding error of the "
+    "tolerance boundary could answer differently: not generated)",
 ]
